@@ -182,8 +182,12 @@ package poseidon
 //@   ensures len(res) == 5
 //@   ensures forall(k, 0, 4, 0 <= res[k].Limb && res[k].Limb < pow2(56)) && 0 <= res[4].Limb && res[4].Limb < pow2(30)
 //@   ensures hash == res[0].Limb + res[1].Limb * pow2(56) + res[2].Limb * pow2(112) + res[3].Limb * pow2(168) + res[4].Limb * pow2(224)
+//@   use_at_return bn_chunks_divmod(hash, res[0].Limb, res[1].Limb, res[2].Limb, res[3].Limb, res[4].Limb)
+//@   ensures forall(k, 0, 5, res[k].Limb == (hash / pow2(56 * k)) % pow2(56))
 
 // Injectivity facts of the conversions (pure linear arithmetic).
+//@ lemma bn_chunks_divmod(h, a0, a1, a2, a3, a4) = implies(0 <= a0 && a0 < pow2(56) && 0 <= a1 && a1 < pow2(56) && 0 <= a2 && a2 < pow2(56) && 0 <= a3 && a3 < pow2(56) && 0 <= a4 && a4 < pow2(30) && h == a0 + a1 * pow2(56) + a2 * pow2(112) + a3 * pow2(168) + a4 * pow2(224), a0 == h % pow2(56) && a1 == (h / pow2(56)) % pow2(56) && a2 == (h / pow2(112)) % pow2(56) && a3 == (h / pow2(168)) % pow2(56) && a4 == (h / pow2(224)) % pow2(56))
+//@   props C10 C11
 //@ lemma bn_pack3_injective(a0, a1, a2, b0, b1, b2) = implies(0 <= a0 && a0 < pow2(64) && 0 <= a1 && a1 < pow2(64) && 0 <= a2 && a2 < pow2(64) && 0 <= b0 && b0 < pow2(64) && 0 <= b1 && b1 < pow2(64) && 0 <= b2 && b2 < pow2(64) && a0 + a1 * pow2(64) + a2 * pow2(128) == b0 + b1 * pow2(64) + b2 * pow2(128), a0 == b0 && a1 == b1 && a2 == b2)
 //@   props C10
 //@ lemma bn_pack3_no_wrap(a0, a1, a2) = implies(0 <= a0 && a0 < pow2(64) && 0 <= a1 && a1 < pow2(64) && 0 <= a2 && a2 < pow2(64), a0 + a1 * pow2(64) + a2 * pow2(128) < R)
@@ -232,4 +236,15 @@ package poseidon
 //@ func (c *GoldilocksChip) ToVec(hash GoldilocksHashOut) (res []gl.Variable)
 //@   props C09
 //@   circuit
+//@   flag inline-at-calls
 //@   ensures len(res) == 4 && forall(k, 0, 4, res[k] == hash[k])
+
+//@ func NewGoldilocksChip(api frontend.API) (res *GoldilocksChip)
+//@   props C11 C17
+//@   circuit sound-only
+//@   ensures chipok(res.Gl)
+
+//@ func NewBN254Chip(api frontend.API) (res *BN254Chip)
+//@   props C11 C17
+//@   circuit sound-only
+//@   ensures chipok(res.gl)
